@@ -34,6 +34,13 @@ Decided for derived-type argument expansion and duplicate-argument removal:
      and ``sanitise/sequence_associations.py``): an explicit bound 0 is a falsy
      ``IntLiteral`` and would be replaced by the default bound, giving the dummy a
      wrong explicit size.
+ R7  the caller finds a renamed callee wherever the rename may be declared: the
+     map from use-renamed successor names to call names in
+     ``DerivedTypeArgumentsTransformation.transform_subroutine`` is built from the
+     imports of the routine *and* of its enclosing scope (a ``use m, only: a => b``
+     in the module spec renames the callee for every contained procedure); with
+     the routine's own imports only, such a call is left unexpanded while the
+     callee's signature is rewritten.
 Not decided: the index arithmetic of sequence-association resolution, explicit
 argument shapes, type-bound call rewriting, and the equivalence of the rewritten
 bodies.
@@ -211,6 +218,22 @@ def run(ctx):
     else:
         ctx.violation('R4', 'remove_duplicate_args_call:arg-map', f'{rd.module.relpath}:{caller.lineno}',
                       'the actual -> dummies map is no longer filled in call.arg_iter() order')
+    # what is removed from the signature is what is renamed in the body: every "rest of the group" is the whole rest
+    for c_ in ast.walk(callee):
+        if isinstance(c_, (ast.ListComp, ast.GeneratorExp, ast.DictComp)) and len(c_.generators) >= 1 and isinstance(c_.generators[0].target, ast.Name) \
+                and isinstance(c_.generators[0].iter, ast.Name):
+            gv = c_.generators[0].target.id
+            parts = [s_ for s_ in ast.walk(c_) if isinstance(s_, ast.Subscript) and isinstance(s_.value, ast.Name) and s_.value.id == gv]
+            for s_ in parts:
+                txt = ast.unparse(s_.slice)
+                if txt in ('0', '1:'):
+                    continue
+                ctx.violation('R4', 'modify_callee:partial-group', f'{rd.module.relpath}:{s_.lineno}',
+                              f'`{ast.unparse(s_)}` takes only part of a group of dummies bound to the same actual argument, while the signature '
+                              f'drops `{gv}[1:]`: with three or more dummies bound to one actual, uses of the third and later ones stay in the '
+                              f'body although their declarations and dummies are removed')
+    if not any(f.rule == 'R4' and 'partial-group' in f.construct for f in ctx.findings):
+        ctx.judge('R4', 'callee: removed dummies == renamed dummies (whole rest of each group)')
     # caller side idioms
     gb = [c for c in ast.walk(caller) if isinstance(c, ast.Call) and (X.dotted_attr(c.func) or '').split('.')[-1] == 'groupby']
     n = 0
@@ -307,6 +330,25 @@ def run_r5(ctx):
                 else:
                     ctx.judge('R5', inst, nontrivial=bool(used))
     ctx.floor('R5', 'positional-only call rewrites', n, 8)
+    # ---- R7
+    ctx.rule('R7', 'transform_subroutine: the renamed-import map iterates the imports of the routine and of its enclosing scope')
+    T_ = m.get_class(DT, CLS)
+    tsf = T_.function('transform_subroutine')
+    rpar = [a.arg for a in tsf.node.args.args][1]
+    maps = [c_ for c_ in ast.walk(tsf.node) if isinstance(c_, ast.DictComp) and 'use_name' in ast.unparse(c_)
+            and any(k in ast.unparse(c_.generators[0].iter) for k in ('.imports', 'all_imports', 'import_map'))]
+    if len(maps) != 1:
+        raise AnalysisError('transform_subroutine: the map of use-renamed symbols was not found')
+    outer = maps[0]
+    it_txt = ast.unparse(outer.generators[0].iter)
+    own = f'{rpar}.imports' in it_txt or f'{rpar}.all_imports' in it_txt
+    enclosing = ('.parent' in it_txt and 'imports' in it_txt) or 'all_imports' in it_txt or 'get_all_import_map' in it_txt
+    if own and enclosing:
+        ctx.judge('R7', 'renamed-import map spans routine and enclosing scope', facts={'iter': it_txt})
+    else:
+        ctx.violation('R7', 'transform_subroutine:renamed-imports-scope', f'{tsf.module.relpath}:{outer.lineno}',
+                      f'the map of use-renamed successors is built from `{it_txt}` only: a rename declared in the spec of the enclosing module '
+                      f'(use m, only: fill => sub) is not seen, the call `call fill(t)` is not expanded although the callee\'s signature is')
     # ---- R6
     ctx.rule('R6', 'argument_shape.py / sequence_associations.py: no truth test of a range bound (.lower/.upper/.start/.stop)')
     nfun = 0
@@ -329,6 +371,10 @@ def run_r5(ctx):
 
 
 MUTANTS = [
+    Mutant('rename-only-second-dummy', RS, "combine_map = {routine_args[0]: as_tuple(routine_args[1:]) for routine_args in combine}",
+           "combine_map = {routine_args[0]: as_tuple(routine_args[1]) for routine_args in combine}", expect=('R4', 'partial-group')),
+    Mutant('renames-of-own-imports-only', DT, "            for import_ in routine.imports + getattr(routine.parent, 'imports', ())\n",
+           "            for import_ in routine.imports\n", expect=('R7', 'renamed-imports-scope')),
     Mutant('passed-section-bound-by-truthiness', 'loki/transformations/argument_shape.py',
            "                                d.lower if d.lower is not None else getattr(val.shape, 'lower', sym.IntLiteral(1)),",
            "                                d.lower or getattr(val.shape, 'lower', sym.IntLiteral(1)),", expect=('R6', 'bound-truthiness')),
